@@ -522,3 +522,29 @@ pub fn panic_reason_name(r: PanicReason) -> String { format!("{:?}", r) }
 pub fn checked_script(tx: Script, w: &World) -> Result<Checked<Script>, String> {
     tx.into_checked_basic(w.block_height.into(), &w.params).map_err(|e| format!("{e:?}"))
 }
+
+/// summary of a finished (un-stepped) execution, same shape as the comparable part of a Final event
+pub fn final_json<S>(vm: &Vm<S>, state: &Result<ProgramState, InterpreterError<S::DataError>>, post: Option<&dyn Fn(&Vm<S>) -> Value>) -> Value
+where
+    S: InterpreterStorage,
+    S::DataError: std::fmt::Debug,
+{
+    let rc: Vec<Receipt> = vm.receipts().to_vec();
+    merge(json!({
+        "tx_after": hx(vm.transaction().to_bytes()),
+        "receipts_root": hx(vm.transaction().receipts_root()),
+        "rc_all": Value::Array(rc.iter().map(|r| json!(hx(r.to_bytes()))).collect()),
+        "nrc": rc.len(),
+        "post": post.map(|f| f(vm)).unwrap_or(Value::Null),
+    }), out_of_state(state))
+}
+
+/// run a checked script to completion without any debugger involvement
+pub fn run_plain<S>(vm: &mut Vm<S>, w: &World, checked: Checked<Script>) -> Result<Result<ProgramState, InterpreterError<S::DataError>>, String>
+where
+    S: InterpreterStorage,
+    S::DataError: std::fmt::Debug,
+{
+    let ready = checked.into_ready(w.gas_price, w.params.gas_costs(), w.params.fee_params(), Some(w.block_height.into())).map_err(|e| format!("{e:?}"))?;
+    catch(std::panic::AssertUnwindSafe(|| vm.transact(ready).map(|st| *st.state())))
+}
